@@ -496,6 +496,11 @@ func (vfs *MemFS) mkdirAll(path string, perm fs.FileMode) (again bool, err error
 		return false, &fs.PathError{Op: op, Path: pi.LeftPart(), Err: vfs.err.NotADirectory}
 	}
 
+	if !vfs.isNotExist(err) {
+		// the search was stopped by an error (too many levels of symbolic links for example).
+		return false, &fs.PathError{Op: op, Path: path, Err: err}
+	}
+
 	parent.mu.Lock()
 	defer parent.mu.Unlock()
 
